@@ -4,6 +4,7 @@ import CoapVerif.Model.LinkFormat
    wk <table> <filter> <windows>     M: coap_print_wellknown_lkd per window | S: window of the listing
    match <text> <pattern> <pfx> <sub>  M: match() | S: matchSpec
    body <table> <filter>             M: hnd_get_wellknown_lkd's body | S: listing
+   get <table> <filter> <szx>        M: body for the query coap_get_query() builds, number of Block2 responses | S: listing, number
 
    <table>   `-` or `,`-separated entries  `+<path>:<flags>:<attrs>`  (register)  /  `!<path>` (unregister)
              flags: 1 observable, 2 OSCORE only, 4 strings are caller-owned exact-size objects (harness only)
@@ -15,6 +16,7 @@ import CoapVerif.Model.LinkFormat
 -- DRIVER-OPS: wk => Coap.Driver.LinkFormat.wkStep
 -- DRIVER-OPS: match => Coap.Driver.LinkFormat.matchStep
 -- DRIVER-OPS: body => Coap.Driver.LinkFormat.bodyStep
+-- DRIVER-OPS: get => Coap.Driver.LinkFormat.getStep
 namespace Coap.Driver.LinkFormat
 open Coap Coap.LF Coap.M.LF
 
@@ -111,6 +113,21 @@ def bodyStep (args : List String) : String :=
     match parseTable t, parseFilterArg f with
     | some t, some qf => "M " ++ showRBytes (hndBody t qf) ++ " | S " ++ hexOrDash (listing t (qf.getD []))
     | _, _ => "bad-op"
+  | _ => "bad-op"
+
+def getStep (args : List String) : String :=
+  match args with
+  | [t, f, szx] =>
+    match parseTable t, parseFilterArg f, szx.toNat? with
+    | some t, some qf, some szx =>
+      let opt := match qf with | some [] => none | x => x
+      let sz := 2 ^ (szx + 4)
+      let l := listing t (opt.getD [])
+      (match getBody t opt with
+       | .ok b => "M " ++ hexOrDash b ++ ":" ++ toString (nblocks b.length sz)
+       | .rej => "M rej"
+       | .oob => "M oob") ++ " | S " ++ hexOrDash l ++ ":" ++ toString (nblocks l.length sz)
+    | _, _, _ => "bad-op"
   | _ => "bad-op"
 
 end Coap.Driver.LinkFormat
